@@ -40,6 +40,75 @@ def emit(topic, specs, imports=(), extra=""):
     return write(f"PyFns_{topic}", body, ", ".join(srcs) + " (tools/py2lean.py)")
 
 
+def sig_matcher(call_name, module, qualname, drop=(), passthrough=()):
+    """matcher for calls `call_name(...)` of the Python function `qualname` of `module`: the arguments
+    are bound to the parameters of the *current source signature* the way Python binds them
+    (positional, keyword, defaults - constants only); result: the argument nodes in parameter order,
+    without the parameters named in `drop`. A parameter in `passthrough` must be given as the variable
+    of the same name (e.g. `on_update=on_update`) and is dropped."""
+    import ast
+
+    def m(n):
+        if not (isinstance(n, ast.Call) and py2lean.dotted(n.func) == call_name):
+            return None
+        tr = py2lean.Translator(Spec(module=module, qualname=qualname, name="_", params=[], result="Unit"), REPO)
+        fn, is_method = tr.find_def()
+        a = fn.args
+        if a.vararg or a.kwarg or a.kwonlyargs:
+            return None
+        names = [x.arg for x in a.posonlyargs] + [x.arg for x in a.args]
+        dfl = [None] * (len(names) - len(a.defaults)) + list(a.defaults)
+        if is_method:
+            names, dfl = names[1:], dfl[1:]
+        if len(n.args) > len(names) or any(isinstance(x, ast.Starred) for x in n.args):
+            return None
+        bound = dict(zip(names, n.args))
+        for kw in n.keywords:
+            if kw.arg is None or kw.arg not in names or kw.arg in bound:
+                return None
+            bound[kw.arg] = kw.value
+        out = []
+        for nm, d in zip(names, dfl):
+            if nm not in bound:
+                if d is None or not isinstance(d, ast.Constant):
+                    return None
+                bound[nm] = d
+            if nm in passthrough:
+                v = bound[nm]
+                if not ((isinstance(v, ast.Name) and v.id == nm) or (isinstance(v, ast.Constant) and v.value is None)):
+                    return None
+                continue
+            if nm in drop:
+                continue
+            out.append(bound[nm])
+        return out
+
+    return m
+
+
+def emit_parts(topic, parts_in, imports=()):
+    """as `emit`, with hand-written glue text between groups of specs: `parts_in` is a list of
+    strings (Lean text) and lists of Specs, in file order"""
+    parts, srcs = [], []
+    for part in parts_in:
+        if isinstance(part, str):
+            if part:
+                parts.append(part)
+            continue
+        for sp in part:
+            try:
+                parts.append(py2lean.translate(sp, REPO))
+            except py2lean.Untranslatable as e:
+                msg = str(e).replace("-/", "- /")
+                print(f"extract: PyFns_{topic}: `{sp.name}` is UNTRANSLATABLE: {msg}")
+                parts.append(f"/- UNTRANSLATABLE by tools/py2lean.py: {msg}\n   The definition `{sp.name}` is therefore missing: every obligation that mentions it is broken. -/\n")
+            s_ = "src/werkzeug/" + sp.module
+            if s_ not in srcs:
+                srcs.append(s_)
+    body = HEAD.format(topic=topic, imports="".join(f"import {i}\n" for i in imports)) + "\n".join(parts) + f"\nend Wz.Gen.PyFns_{topic}\n"
+    return write(f"PyFns_{topic}", body, ", ".join(srcs) + " (tools/py2lean.py)")
+
+
 # --------------------------------------------------------------------------
 # werkzeug._internal._plain_int (used by C09, C11)
 
@@ -176,6 +245,172 @@ PARSE_IF_RANGE_HEADER = Spec(
 )
 
 
+# --- entity tags: the ETags class (datastructures/etag.py), parse_etags, is_resource_modified
+
+_OS = "Option Str"
+ETAGS = py2lean.record("ETags", [("_strong", f"Set ({_OS})"), ("_weak", f"Set ({_OS})"), ("star_tag", "Bool")])
+_SET_OS = py2lean.parse_ty(f"Set ({_OS})")
+_LST_OS = py2lean.Lst(Opt(STR))
+
+
+def _frozenset_call(n):
+    """`frozenset(X)` -> [X]"""
+    import ast
+
+    if isinstance(n, ast.Call) and isinstance(n.func, ast.Name) and n.func.id == "frozenset" and len(n.args) == 1 and not n.keywords:
+        return [n.args[0]]
+    return None
+
+
+def _frozenset_empty(n):
+    import ast
+
+    if isinstance(n, ast.Call) and isinstance(n.func, ast.Name) and n.func.id == "frozenset" and not n.args and not n.keywords:
+        return []
+    return None
+
+
+_ETAG_MOD = "datastructures/etag.py"
+ETAGS_INIT = Spec(
+    module=_ETAG_MOD,
+    qualname="ETags.__init__",
+    name="etags_init",
+    # tags are `str`; the element type is `str | None` because the groups of `_etag_re` are Optional
+    # for the type checker (parse_etags hands them over unchanged)
+    params=[("strong_etags", f"Option (List ({_OS}))"), ("weak_etags", f"Option (List ({_OS}))"), ("star_tag", "Bool")],
+    fields=["_strong", "_weak", "star_tag"],
+    result="ETags",
+    patterns=[
+        (_frozenset_call, Fn("Pre.frozenset", [_LST_OS], _SET_OS)),
+        (_frozenset_empty, Fn("Pre.frozensetEmpty", [], _SET_OS)),
+    ],
+)
+_ES = [("self._strong", f"Set ({_OS})")]
+_EW = [("self._weak", f"Set ({_OS})")]
+_ET = [("self.star_tag", "Bool")]
+ETAGS_IS_WEAK = Spec(module=_ETAG_MOD, qualname="ETags.is_weak", name="etags_is_weak", params=_EW + [("etag", "Str")], result="Bool")
+ETAGS_IS_STRONG = Spec(module=_ETAG_MOD, qualname="ETags.is_strong", name="etags_is_strong", params=_ES + [("etag", "Str")], result="Bool")
+ETAGS_CONTAINS = Spec(
+    module=_ETAG_MOD, qualname="ETags.contains", name="etags_contains", params=_ES + _ET + [("etag", "Str")], result="Bool",
+    calls={"self.is_strong": Fn("etags_is_strong", [STR], BOOL, extra=("self__strong",))},
+)
+ETAGS_CONTAINS_WEAK = Spec(
+    module=_ETAG_MOD, qualname="ETags.contains_weak", name="etags_contains_weak", params=_ES + _EW + _ET + [("etag", "Str")], result="Bool",
+    calls={
+        "self.is_weak": Fn("etags_is_weak", [STR], BOOL, extra=("self__weak",)),
+        "self.contains": Fn("etags_contains", [STR], BOOL, extra=("self__strong", "self_star_tag")),
+    },
+)
+ETAGS_BOOL = Spec(module=_ETAG_MOD, qualname="ETags.__bool__", name="etags_bool", params=_ES + _EW + _ET, result="Bool")
+ETAGS_TO_HEADER = Spec(
+    module=_ETAG_MOD, qualname="ETags.to_header", name="etags_to_header",
+    # printing needs the tags as `str`
+    params=[("self._strong", "Set Str"), ("self._weak", "Set Str"), ("self.star_tag", "Bool")], result="Str",
+)
+_ETAGS_METHODS = {
+    ("Rec:ETags", "contains"): Fn("etags_contains", [STR], BOOL, recv_fields=("_strong", "star_tag")),
+    ("Rec:ETags", "contains_weak"): Fn("etags_contains_weak", [STR], BOOL, recv_fields=("_strong", "_weak", "star_tag")),
+    ("Rec:ETags", "__bool__"): Fn("etags_bool", [], BOOL, recv_fields=("_strong", "_weak", "star_tag")),
+}
+
+_G3 = Tup(Opt(STR), Opt(STR), Opt(STR))
+_M3 = Tup(_G3, INT)
+PARSE_ETAGS = Spec(
+    module="http.py",
+    qualname="parse_etags",
+    name="parse_etags",
+    params=[("value", "Option Str")],
+    locals={"strong": f"List ({_OS})", "weak": f"List ({_OS})"},
+    result="ETags",
+    raises=True,  # only the fuel marker of the while loop
+    # `_etag_re.match(value, pos)`: C06's hand model of the regex (`Http.etagMatch`, validated by the
+    # stream codec-pairs); a match object = (its three groups, its end position)
+    calls={"_etag_re.match": Fn("etagReMatch", [STR, INT], Opt(_M3))},
+    methods={("Tup", "groups"): Fn("Prod.fst", [_M3], _G3), ("Tup", "end"): Fn("Prod.snd", [_M3], INT)},
+    patterns=[(sig_matcher("ds.ETags", _ETAG_MOD, "ETags.__init__"), Fn("etags_init", [Opt(_LST_OS), Opt(_LST_OS), BOOL], ETAGS))],
+)
+
+
+# is_resource_modified (sansio/http.py): instants are an abstract type τ (always true as objects,
+# ordered by `dle`); the parsers it calls are parameters
+IFRANGE = py2lean.record("IfRange", [("etag", "Option Str"), ("date", py2lean.Opt(py2lean.Abs("τ")))])
+py2lean.ABSTRACT_TYPES.add("τ")
+_TAU = py2lean.Abs("τ")
+
+
+def _dt_as_utc_replace(n):
+    """`_dt_as_utc(X.replace(microsecond=0))` -> [X]"""
+    import ast
+
+    if isinstance(n, ast.Call) and isinstance(n.func, ast.Name) and n.func.id == "_dt_as_utc" and len(n.args) == 1 and not n.keywords:
+        c = n.args[0]
+        if isinstance(c, ast.Call) and isinstance(c.func, ast.Attribute) and c.func.attr == "replace" and not c.args and len(c.keywords) == 1:
+            kw = c.keywords[0]
+            if kw.arg == "microsecond" and isinstance(kw.value, ast.Constant) and kw.value.value == 0 and type(kw.value.value) is int:
+                return [c.func.value]
+    return None
+
+
+IS_RESOURCE_MODIFIED = Spec(
+    module="sansio/http.py",
+    qualname="is_resource_modified",
+    name="is_resource_modified",
+    type_params=["τ"],
+    orders={"τ": "dle"},
+    truthy_types=["τ"],
+    opaque=[
+        ("dle", "τ → τ → Bool"),
+        # `_dt_as_utc(d.replace(microsecond=0))`
+        ("dropMicro", "τ → τ"),
+        ("parse_date", "Option Pre.Str → Option τ"),
+        ("parse_if_range_header", "Option Pre.Str → (Option Pre.Str × Option τ)"),
+        ("parse_etags", "Option Pre.Str → (List (Option Pre.Str) × List (Option Pre.Str) × Bool)"),
+    ],
+    params=[
+        ("http_range", "Option Str"), ("http_if_range", "Option Str"), ("http_if_modified_since", "Option Str"),
+        ("http_if_none_match", "Option Str"), ("http_if_match", "Option Str"), ("etag", "Option Str"),
+        # `data` (bytes to hash into an etag) is restricted to None; `last_modified` to a datetime or None
+        ("data", "Unit"), ("last_modified", "Option τ"), ("ignore_if_range", "Bool"),
+    ],
+    result="Bool",
+    raises=True,  # TypeError arms for `unquote_etag(...)[0]` being None: proved unreachable
+    static={"isinstance(last_modified, str)": False},
+    calls={
+        "parse_date": Fn("parse_date", [Opt(STR)], Opt(_TAU)),
+        "parse_if_range_header": Fn("parse_if_range_header", [Opt(STR)], IFRANGE),
+        "parse_etags": Fn("parse_etags", [Opt(STR)], ETAGS),
+        "unquote_etag": Fn("Gen.PyFns_Range.unquote_etag", [Opt(STR)], Tup(Opt(STR), Opt(BOOL))),
+    },
+    methods=_ETAGS_METHODS,
+    patterns=[(_dt_as_utc_replace, Fn("dropMicro", [_TAU], _TAU))],
+)
+
+
+@generator("PyFns_Etag")
+def gen_etag():
+    import importlib
+
+    rx = importlib.import_module("werkzeug.http")._etag_re
+    extra = f"""/-- `werkzeug.http._etag_re`: (pattern source, flags) - `etagReMatch` below is only right for this source -/
+def etagRe : String × Nat := ({lean_str(rx.pattern)}, {int(rx.flags)})
+
+/-- `_etag_re.match(value, pos)` through C06's hand model `Http.etagMatch` of the regex at the start
+of the remaining text: the three groups (`([Ww]/)?`, the quoted tag, the raw tag) and `match.end()` -/
+def etagReMatch (value : Pre.Str) (pos : Int) :
+    Option ((Option Pre.Str × Option Pre.Str × Option Pre.Str) × Int) :=
+  let s := value.drop pos.toNat
+  (Wz.Http.etagMatch s).map fun m =>
+    ((if m.1 then some (s.take 2) else none, m.2.1, m.2.2.1), (value.length : Int) - (m.2.2.2.length : Int))
+
+"""
+    return emit(
+        "Etag",
+        [ETAGS_INIT, ETAGS_IS_WEAK, ETAGS_IS_STRONG, ETAGS_CONTAINS, ETAGS_CONTAINS_WEAK, ETAGS_BOOL, ETAGS_TO_HEADER, PARSE_ETAGS, IS_RESOURCE_MODIFIED],
+        imports=["WzVerif.Model.Http", "WzVerif.Gen.PyFns_Range"],
+        extra=extra,
+    )
+
+
 @generator("PyFns_Range")
 def gen_range():
     return emit("Range", [IS_BYTE_RANGE_VALID, RANGE_FOR_LENGTH, RANGE_INIT, PARSE_RANGE_HEADER, UNQUOTE_ETAG, IF_RANGE_INIT, PARSE_IF_RANGE_HEADER], imports=["WzVerif.Gen.PyFns_Internal"])
@@ -222,6 +457,161 @@ GET_HOST = Spec(
 @generator("PyFns_Host")
 def gen_host():
     return emit("Host", [STRIP_PORT, HOST_IS_TRUSTED, GET_HOST])
+
+
+# --- the debugger's PIN functions (debug/__init__.py)
+
+
+def _src_matcher(text, nargs=0):
+    """matcher for an expression whose source text (ast.unparse) is exactly `text` -> []"""
+    import ast
+
+    def m(n):
+        try:
+            return [] if ast.unparse(n) == text else None
+        except Exception:  # noqa: BLE001
+            return None
+
+    return m
+
+
+_DBG = "debug/__init__.py"
+CHECK_PIN_TRUST = Spec(
+    module=_DBG,
+    qualname="DebuggedApplication.check_pin_trust",
+    name="check_pin_trust",
+    # `parse_cookie(environ).get(self.pin_cookie_name)` is the parameter `cookie` (the value of the
+    # PIN cookie or None); `hash_pin` and the freshness test `(time.time() - PIN_TIME) < ts` are parameters
+    opaque=[("hash_pin", "Pre.Str → Pre.Str"), ("fresh", "Int → Bool"), ("cookie", "Option Pre.Str")],
+    params=[("self.pin", "Option Str"), ("environ", "Unit")],
+    # True / False / None
+    result="Option Bool",
+    raises=True,  # the two-way unpacking of `val.split("|", 1)`: proved impossible (guarded by `"|" in val`)
+    calls={"hash_pin": Fn("hash_pin", [STR], STR), "int": Fn("Wz.Http.pyInt", [STR], INT, raises=("ValueError",))},
+    patterns=[
+        (_src_matcher("parse_cookie(environ).get(self.pin_cookie_name)"), Fn("cookie", [], Opt(STR))),
+    ],
+)
+
+
+def _fresh_matcher(n):
+    """`time.time() - PIN_TIME < X` -> [X]"""
+    import ast
+
+    if isinstance(n, ast.Compare) and len(n.ops) == 1 and isinstance(n.ops[0], ast.Lt) and ast.unparse(n.left) == "time.time() - PIN_TIME":
+        return [n.comparators[0]]
+    return None
+
+
+CHECK_PIN_TRUST.patterns.append((_fresh_matcher, Fn("fresh", [INT], BOOL)))
+
+FAIL_PIN_AUTH = Spec(
+    module=_DBG,
+    qualname="DebuggedApplication._fail_pin_auth",
+    name="fail_pin_auth",
+    # the shared counter `multiprocessing.Value("B")` as an int attribute; the penalty sleep is
+    # recorded in `slept` (True = a sleep happened) and `slept_long` (the 5 s one)
+    params=[("self._failed_pin_auth.value", "Int"), ("self.slept", "Bool"), ("self.slept_long", "Bool")],
+    state=["_failed_pin_auth.value", "slept", "slept_long"],
+    result="Unit",
+    with_noop=["self._failed_pin_auth.get_lock()"],
+    effects={"time.sleep(5.0 if count > 5 else 0.5)": [("self.slept", "True"), ("self.slept_long", "count > 5")]},
+)
+
+_PIN_KEYS = ("self._failed_pin_auth.value", "self.slept", "self.slept_long")
+PIN_AUTH = Spec(
+    module=_DBG,
+    qualname="DebuggedApplication.pin_auth",
+    name="pin_auth",
+    # parameters standing for what the method reads from its collaborators: `host_trusted` =
+    # `self.check_host_trust(request.environ)`, `trust` = `self.check_pin_trust(request.environ)`,
+    # `entered` = `request.args["pin"]` (KeyError when missing). The answer is the triple
+    # (auth, exhausted, cookie action: 1 = set, 2 = deleted, 0 = untouched); None = SecurityError()
+    opaque=[("host_trusted", "Bool"), ("trust", "Option Bool"), ("entered", "Except String Pre.Str")],
+    params=[("self.pin", "Option Str"), ("self._failed_pin_auth.value", "Int"), ("self.slept", "Bool"), ("self.slept_long", "Bool"), ("request", "Unit")],
+    state=["_failed_pin_auth.value", "slept", "slept_long"],
+    result="Option (Bool × Bool × Int)",
+    raises=True,
+    calls={"self._fail_pin_auth": Fn("fail_pin_auth", [], py2lean.NONE, state=_PIN_KEYS)},
+    # the two cookie statements are pinned by their exact source text; their modelled effect is the
+    # third component of the answer
+    effects={
+        "rv.set_cookie(self.pin_cookie_name, f'{int(time.time())}|{hash_pin(pin)}', httponly=True, samesite='Strict', secure=request.is_secure)": [("rv", "(rv[0], rv[1], 1)")],
+        "rv.delete_cookie(self.pin_cookie_name)": [("rv", "(rv[0], rv[1], 2)")],
+    },
+    patterns=[
+        (_src_matcher("self.check_host_trust(request.environ)"), Fn("host_trusted", [], BOOL)),
+        (_src_matcher("self.check_pin_trust(request.environ)"), Fn("trust", [], Opt(BOOL))),
+        (_src_matcher("request.args['pin']"), Fn("entered", [], STR, raises=("KeyError",))),
+        (_src_matcher("SecurityError()"), Fn("none", [], Opt(Tup(BOOL, BOOL, INT)))),
+        (_src_matcher("t.cast(str, self.pin)"), Fn("self_pin", [], Opt(STR))),
+    ],
+)
+
+
+def _response_json(n):
+    """`Response(json.dumps({"auth": A, "exhausted": E}), mimetype="application/json")` -> [A, E]"""
+    import ast
+
+    if not (isinstance(n, ast.Call) and isinstance(n.func, ast.Name) and n.func.id == "Response" and len(n.args) == 1 and len(n.keywords) == 1):
+        return None
+    kw = n.keywords[0]
+    if not (kw.arg == "mimetype" and isinstance(kw.value, ast.Constant) and kw.value.value == "application/json"):
+        return None
+    j = n.args[0]
+    if not (isinstance(j, ast.Call) and py2lean.dotted(j.func) == "json.dumps" and len(j.args) == 1 and not j.keywords and isinstance(j.args[0], ast.Dict)):
+        return None
+    d = j.args[0]
+    keys = [k.value if isinstance(k, ast.Constant) else None for k in d.keys]
+    if keys != ["auth", "exhausted"]:
+        return None
+    return list(d.values)
+
+
+PIN_AUTH.patterns.insert(0, (_response_json, Fn("pinResponse", [BOOL, BOOL], Tup(BOOL, BOOL, INT))))
+
+# DebuggedApplication.__call__: which handler answers. Everything read from the request / the object
+# is a parameter; the handlers are the outcome codes 0 = the wrapped application, 1 = get_resource,
+# 2 = pin_auth, 3 = log_pin_request, 4 = execute_command, 5 = display_console
+_OSTRP = "Option Pre.Str"
+DBG_CALL = Spec(
+    module=_DBG,
+    qualname="DebuggedApplication.__call__",
+    name="debugger_dispatch",
+    opaque=[
+        ("arg_debugger", _OSTRP), ("arg_cmd", _OSTRP), ("arg_f", _OSTRP), ("arg_s", _OSTRP),
+        ("frame_known", "Bool"), ("pin_trust", "Option Bool"), ("request_path", "Pre.Str"),
+    ],
+    params=[("self.secret", "Str"), ("self.evalex", "Bool"), ("self.console_path", "Option Str"), ("environ", "Unit"), ("start_response", "Unit")],
+    result="Int",
+    patterns=[
+        (_src_matcher("Request(environ)"), Fn("()", [], py2lean.NONE)),
+        (_src_matcher("self.debug_application"), Fn("0", [], INT)),
+        (_src_matcher("request.args.get('__debugger__')"), Fn("arg_debugger", [], Opt(STR))),
+        (_src_matcher("request.args.get('cmd')"), Fn("arg_cmd", [], Opt(STR))),
+        (_src_matcher("request.args.get('f')"), Fn("arg_f", [], Opt(STR))),
+        (_src_matcher("request.args.get('s')"), Fn("arg_s", [], Opt(STR))),
+        # the frame object: only `is not None` is asked
+        (_src_matcher("self.frames.get(request.args.get('frm', type=int))"), Fn("(if frame_known then some () else none)", [], Opt(py2lean.OBJ))),
+        (_src_matcher("self.get_resource(request, arg)"), Fn("1", [], INT)),
+        (_src_matcher("self.pin_auth(request)"), Fn("2", [], INT)),
+        (_src_matcher("self.log_pin_request(request)"), Fn("3", [], INT)),
+        (_src_matcher("self.execute_command(request, cmd, frame)"), Fn("4", [], INT)),
+        (_src_matcher("self.display_console(request)"), Fn("5", [], INT)),
+        (_src_matcher("self.check_pin_trust(environ)"), Fn("pin_trust", [], Opt(BOOL))),
+        (_src_matcher("request.path"), Fn("request_path", [], STR)),
+        (_src_matcher("response(environ, start_response)"), Fn("response", [], INT)),
+    ],
+)
+
+
+@generator("PyFns_Debug")
+def gen_debug():
+    extra = """/-- the JSON answer of `pin_auth` as (auth, exhausted, cookie action: 0 = untouched) -/
+def pinResponse (auth exhausted : Bool) : Bool × Bool × Int := (auth, exhausted, 0)
+
+"""
+    return emit("Debug", [CHECK_PIN_TRUST, FAIL_PIN_AUTH, PIN_AUTH, DBG_CALL], imports=["WzVerif.Model.Http"], extra=extra)
 
 
 # --------------------------------------------------------------------------
@@ -285,6 +675,37 @@ def secure_filename_spec():
     )
 
 
+# SharedDataMiddleware.__call__ up to the point where the file to serve is decided: loaders and the
+# file-loader objects they return are abstract
+py2lean.ABSTRACT_TYPES.update({"Ldr", "Fld"})
+_LAM, _PHI = py2lean.Abs("Ldr"), py2lean.Abs("Fld")
+SHARED_DATA_CALL = Spec(
+    module="middleware/shared_data.py",
+    qualname="SharedDataMiddleware.__call__",
+    name="shared_data_select",
+    type_params=["Ldr", "Fld"],
+    truthy_types=["Fld"],
+    opaque=[
+        ("path_info", "Pre.Str"),  # get_path_info(environ)
+        ("call_loader", "Ldr → Option Pre.Str → (Option Pre.Str × Option Fld)"),  # loader(path)
+        ("is_allowed", "Pre.Str → Bool"),  # self.is_allowed(real_filename)
+    ],
+    params=[("self.exports", "List (Str × Ldr)"), ("environ", "Unit"), ("start_response", "Unit")],
+    # None = the wrapped application is called; else the (real_filename, file_loader) that is served
+    result="Option (Str × Fld)",
+    raises=True,  # `self.is_allowed(real_filename)` with `real_filename` None would be a TypeError arm
+    patterns=[
+        (_src_matcher("get_path_info(environ)"), Fn("path_info", [], STR)),
+        (_src_matcher("self.app(environ, start_response)"), Fn("none", [], Opt(Tup(STR, _PHI)))),
+    ],
+    calls={"self.is_allowed": Fn("is_allowed", [STR], BOOL)},
+    callables={"Ldr": Fn("call_loader", [_LAM, Opt(STR)], Tup(Opt(STR), Opt(_PHI)))},
+    locals={"file_loader": "Option Fld"},
+    maybe_unbound={"real_filename": "Option Str"},
+    stop_at=("guessed_type = mimetypes.guess_type(real_filename)", "(real_filename, file_loader)"),
+)
+
+
 @generator("PyFns_Paths")
 def gen_paths():
     import os as _os
@@ -310,7 +731,7 @@ is that class evaluated on every code point (`Gen/Paths.lean`, regenerated on ev
 def filenameAsciiStripReSubEmpty (s : Pre.Str) : Pre.Str := s.filter fun c => !Wz.Paths.stripped c
 
 """
-    return emit("Paths", [SAFE_JOIN, secure_filename_spec()], imports=["WzVerif.Model.Paths"], extra=extra)
+    return emit("Paths", [SAFE_JOIN, secure_filename_spec(), SHARED_DATA_CALL], imports=["WzVerif.Model.Paths"], extra=extra)
 
 
 # --------------------------------------------------------------------------
@@ -366,9 +787,972 @@ RANGE_TO_HEADER = Spec(
 )
 
 
+PARSE_LIST_HEADER = Spec(
+    module="http.py",
+    qualname="parse_list_header",
+    name="parse_list_header",
+    params=[("value", "Str")],
+    locals={"result": "List Str"},
+    result="List Str",
+    raises=True,  # item[0] / item[-1] raise IndexError on "": proved impossible (len guard)
+    # `urllib.request.parse_http_list` (imported as `_parse_list_header`) is C06's hand model
+    # `parseHttpList`, validated against CPython by the stream `codec-pairs`
+    calls={"_parse_list_header": Fn("Wz.Http.parseHttpList", [STR], py2lean.Lst(STR))},
+)
+
+
+_QHV = Fn("quote_header_value", [STR, BOOL], STR, defaults_from=("http.py", "quote_header_value"))
+_OSTR = Opt(STR)
+_DICT_OSTR = py2lean.Dct(STR, _OSTR)
+
+DUMP_HEADER_LIST = Spec(
+    module="http.py",
+    qualname="dump_header",
+    name="dump_header_list",
+    # the non-dict branch: an iterable of `str` items
+    params=[("iterable", "List Str")],
+    locals={"items": "List Str"},
+    result="Str",
+    raises=True,
+    calls={"quote_header_value": _QHV},
+    doc="`dump_header(iterable)` of src/werkzeug/http.py for a list of `str`, translated by tools/py2lean.py",
+)
+DUMP_HEADER_DICT = Spec(
+    module="http.py",
+    qualname="dump_header",
+    name="dump_header_dict",
+    # the dict branch: values are `str` or None (`t.Any` restricted as in the model)
+    params=[("iterable", "Dict Str (Option Str)")],
+    locals={"items": "List Str"},
+    result="Str",
+    raises=True,  # key[-1] raises IndexError for an empty key
+    calls={"quote_header_value": _QHV},
+    doc="`dump_header(iterable)` of src/werkzeug/http.py for a dict with `str | None` values, translated by tools/py2lean.py",
+)
+DUMP_OPTIONS_HEADER = Spec(
+    module="http.py",
+    qualname="dump_options_header",
+    name="dump_options_header",
+    params=[("header", "Option Str"), ("options", "Dict Str (Option Str)")],
+    locals={"segments": "List Str"},
+    result="Str",
+    raises=True,  # key[-1] raises IndexError for an empty key
+    calls={"quote_header_value": _QHV},
+)
+QUOTE_ETAG = Spec(
+    module="http.py",
+    qualname="quote_etag",
+    name="quote_etag",
+    params=[("etag", "Str"), ("weak", "Bool")],
+    result="Str",
+    raises=True,
+)
+
+
+def _header_set_ctor(n):
+    """`ds.HeaderSet(X, on_update)` -> [X]: the object is represented by the `headers` argument of
+    its constructor (None = no headers)"""
+    import ast
+
+    if isinstance(n, ast.Call) and py2lean.dotted(n.func) == "ds.HeaderSet" and len(n.args) == 2 and not n.keywords:
+        if isinstance(n.args[1], ast.Name) and n.args[1].id == "on_update":
+            return [n.args[0]]
+    return None
+
+
+PARSE_SET_HEADER = Spec(
+    module="http.py",
+    qualname="parse_set_header",
+    name="parse_set_header",
+    # `on_update` is only handed on to the HeaderSet constructor
+    params=[("value", "Option Str"), ("on_update", "Unit")],
+    result="Option (List Str)",
+    raises=True,
+    calls={"parse_list_header": Fn("parse_list_header", [STR], py2lean.Lst(STR), raises=("IndexError",))},
+    patterns=[(_header_set_ctor, Fn("id", [Opt(py2lean.Lst(STR))], Opt(py2lean.Lst(STR))))],
+)
+
+
 @generator("PyFns_Http")
 def gen_http():
-    return emit("Http", [QUOTE_HEADER_VALUE, UNQUOTE_HEADER_VALUE, IS_BYTE_RANGE_VALID, RANGE_TO_HEADER], imports=["WzVerif.Model.Http"])
+    return emit(
+        "Http",
+        [QUOTE_HEADER_VALUE, UNQUOTE_HEADER_VALUE, IS_BYTE_RANGE_VALID, RANGE_TO_HEADER, PARSE_LIST_HEADER, DUMP_HEADER_LIST, DUMP_HEADER_DICT, DUMP_OPTIONS_HEADER, QUOTE_ETAG, PARSE_SET_HEADER],
+        imports=["WzVerif.Model.Http"],
+    )
+
+
+# --------------------------------------------------------------------------
+# C06 / C07: Age, Content-Range, CSP, dict headers
+
+
+def _kw_call(dotted_name, kw):
+    """matcher for `f(<kw>=X)` -> [X]"""
+    import ast
+
+    def m(n):
+        if isinstance(n, ast.Call) and py2lean.dotted(n.func) == dotted_name and not n.args and len(n.keywords) == 1 and n.keywords[0].arg == kw:
+            return [n.keywords[0].value]
+        return None
+
+    return m
+
+
+PARSE_AGE = Spec(
+    module="http.py",
+    qualname="parse_age",
+    name="parse_age",
+    params=[("value", "Option Str")],
+    # the timedelta is represented by its number of seconds
+    result="Option Int",
+    raises=True,
+    # `int(str)` is C06's hand model `pyInt` (white space, sign, `_` separators; validated by the
+    # stream `codec-pairs`), `timedelta(seconds=n)` raises OverflowError outside timedelta's range
+    calls={"int": Fn("Wz.Http.pyInt", [STR], INT, raises=("ValueError",))},
+    patterns=[(_kw_call("timedelta", "seconds"), Fn("timedeltaSeconds", [INT], INT, raises=("OverflowError",)))],
+)
+DUMP_AGE = Spec(
+    module="http.py",
+    qualname="dump_age",
+    name="dump_age",
+    # `age: timedelta | int | None` restricted to `int | None`
+    params=[("age", "Option Int")],
+    result="Option Str",
+    raises=True,
+    static={"isinstance(age, timedelta)": False},
+    calls={"int": Fn("id", [INT], INT)},
+)
+
+_CR_TY = "Option Str × Option Int × Option Int × Option Int"
+_OINT = Opt(INT)
+
+
+def _content_range_ctor(n):
+    """`ds.ContentRange(units, start, stop, length, on_update=on_update)` -> [units, start, stop, length]"""
+    import ast
+
+    if isinstance(n, ast.Call) and py2lean.dotted(n.func) == "ds.ContentRange" and len(n.args) == 4 and len(n.keywords) == 1:
+        kw = n.keywords[0]
+        if kw.arg == "on_update" and isinstance(kw.value, ast.Name) and kw.value.id == "on_update":
+            return list(n.args)
+    return None
+
+
+PARSE_CONTENT_RANGE_HEADER = Spec(
+    module="http.py",
+    qualname="parse_content_range_header",
+    name="parse_content_range_header",
+    params=[("value", "Option Str"), ("on_update", "Unit")],
+    # the ContentRange object = (units, start, stop, length), as `content_range_init` builds it
+    result=f"Option ({_CR_TY})",
+    raises=True,  # ContentRange.__init__ asserts is_byte_range_valid: proved impossible
+    calls={
+        "_plain_int": PLAIN_INT_FN,
+        "is_byte_range_valid": Fn("is_byte_range_valid", [_OINT, _OINT, _OINT], BOOL),
+    },
+    patterns=[(_content_range_ctor, Fn("content_range_init", [_OSTR, _OINT, _OINT, _OINT], py2lean.parse_ty(_CR_TY), raises=("AssertionError",)))],
+)
+
+_CR_PARAMS = [("self._units", "Option Str"), ("self._start", "Option Int"), ("self._stop", "Option Int"), ("self._length", "Option Int"), ("self.notified", "Bool")]
+_CR_KEYS = ("self._units", "self._start", "self._stop", "self._length", "self.notified")
+_CR = dict(
+    module="datastructures/range.py",
+    static={"self.on_update is not None": True},
+    effects={"self.on_update(self)": [("self.notified", "True")]},
+)
+CONTENT_RANGE_SET = Spec(
+    qualname="ContentRange.set",
+    name="content_range_set",
+    params=_CR_PARAMS + [("start", "Option Int"), ("stop", "Option Int"), ("length", "Option Int"), ("units", "Option Str")],
+    state=["_units", "_start", "_stop", "_length", "notified"],
+    result="Unit",
+    raises=True,
+    calls={"http.is_byte_range_valid": Fn("is_byte_range_valid", [_OINT, _OINT, _OINT], BOOL)},
+    **_CR,
+)
+
+
+def _cr_unset_call(n):
+    """`self.set(None, None, units=None)` -> [None, None, <default of length>, None]"""
+    import ast
+
+    if isinstance(n, ast.Call) and py2lean.dotted(n.func) == "self.set" and len(n.args) == 2 and len(n.keywords) == 1 and n.keywords[0].arg == "units":
+        return [n.args[0], n.args[1], ast.Constant(value=None), n.keywords[0].value]
+    return None
+
+
+CONTENT_RANGE_UNSET = Spec(
+    qualname="ContentRange.unset",
+    name="content_range_unset",
+    params=_CR_PARAMS,
+    state=["_units", "_start", "_stop", "_length", "notified"],
+    result="Unit",
+    raises=True,
+    patterns=[(_cr_unset_call, Fn("content_range_set", [_OINT, _OINT, _OINT, _OSTR], py2lean.NONE, raises=("AssertionError",), state=_CR_KEYS))],
+    **_CR,
+)
+CONTENT_RANGE_TO_HEADER = Spec(
+    module="datastructures/range.py",
+    qualname="ContentRange.to_header",
+    name="content_range_to_header",
+    params=[("self._units", "Option Str"), ("self._start", "Option Int"), ("self._stop", "Option Int"), ("self._length", "Option Int")],
+    result="Str",
+    raises=True,  # `self._stop - 1` is a TypeError for a start without a stop (excluded by `set`'s assertion)
+)
+CONTENT_RANGE_BOOL = Spec(
+    module="datastructures/range.py",
+    qualname="ContentRange.__bool__",
+    name="content_range_bool",
+    params=[("self._units", "Option Str")],
+    result="Bool",
+)
+
+
+def _csp_ctor(n):
+    """`cls(items, on_update)` / `cls((), on_update)` -> [items]"""
+    import ast
+
+    if isinstance(n, ast.Call) and isinstance(n.func, ast.Name) and n.func.id == "cls" and len(n.args) == 2 and not n.keywords:
+        if isinstance(n.args[1], ast.Name) and n.args[1].id == "on_update":
+            return [n.args[0]]
+    return None
+
+
+_SS = py2lean.Lst(Tup(STR, STR))
+PARSE_CSP_HEADER = Spec(
+    module="http.py",
+    qualname="parse_csp_header",
+    name="parse_csp_header",
+    # `cls` (default ContentSecurityPolicy, a dict subclass built from the item list) and `on_update`
+    # are only handed on: the result is the item list the constructor receives
+    params=[("value", "Option Str"), ("on_update", "Unit"), ("cls", "Unit")],
+    locals={"items": "List (Str × Str)"},
+    result="List (Str × Str)",
+    raises=True,
+    static={"cls is None": False},
+    patterns=[(_csp_ctor, Fn("id", [_SS], _SS))],
+)
+DUMP_CSP_HEADER = Spec(
+    module="http.py",
+    qualname="dump_csp_header",
+    name="dump_csp_header",
+    params=[("header", "Dict Str Str")],
+    result="Str",
+)
+
+
+def _unquote_enc(n):
+    """`unquote(X, encoding=E)` -> [X, E]"""
+    import ast
+
+    if isinstance(n, ast.Call) and isinstance(n.func, ast.Name) and n.func.id == "unquote" and len(n.args) == 1 and len(n.keywords) == 1 and n.keywords[0].arg == "encoding":
+        return [n.args[0], n.keywords[0].value]
+    return None
+
+
+_UNQUOTE = Fn("unquoteEnc", [STR, STR], STR, raises=("LookupError",), partial_model=True)
+_GROUPS2 = {("Tup", "groups"): Fn("id", [Tup(STR, STR)], Tup(STR, STR))}
+PARSE_DICT_HEADER = Spec(
+    module="http.py",
+    qualname="parse_dict_header",
+    name="parse_dict_header",
+    params=[("value", "Str")],
+    locals={"result": "Dict Str (Option Str)"},
+    result="Dict Str (Option Str)",
+    raises=True,
+    calls={
+        "parse_list_header": Fn("parse_list_header", [STR], py2lean.Lst(STR), raises=("IndexError",)),
+        # `_charset_value_re.match(v)`: C06's hand model of the regex (shape pinned by
+        # Props/C06 `regex_sources_pinned`): the two groups of a match
+        "_charset_value_re.match": Fn("Wz.Http.charsetValue?", [STR], Opt(Tup(STR, STR))),
+    },
+    methods=_GROUPS2,
+    patterns=[(_unquote_enc, _UNQUOTE)],
+    join_in_loops=True,
+)
+
+
+def _cc_ctor(n):
+    """`cls(X, on_update)` -> [X]"""
+    return _csp_ctor(n)
+
+
+PARSE_CACHE_CONTROL_HEADER = Spec(
+    module="http.py",
+    qualname="parse_cache_control_header",
+    name="parse_cache_control_header",
+    params=[("value", "Option Str"), ("on_update", "Unit"), ("cls", "Unit")],
+    # the object is represented by the dict its constructor receives
+    result="Dict Str (Option Str)",
+    raises=True,
+    static={"cls is None": False},
+    calls={"parse_dict_header": Fn("parse_dict_header", [STR], _DICT_OSTR, raises=("IndexError", "LookupError"))},
+    patterns=[(_cc_ctor, Fn("id", [_DICT_OSTR], _DICT_OSTR))],
+)
+
+
+def _pinned_body(module, qualname, expected):
+    """the source text of a function body (docstring dropped) must be exactly `expected`"""
+    import ast
+
+    tr = py2lean.Translator(Spec(module=module, qualname=qualname, name="_", params=[], result="Unit"), REPO)
+    fn, _ = tr.find_def()
+    body = [st for st in fn.body if not (isinstance(st, ast.Expr) and isinstance(st.value, ast.Constant) and isinstance(st.value.value, str))]
+    got = [ast.unparse(st) for st in body]
+    sig = ast.unparse(fn.args)
+    return got == expected[1] and sig == expected[0], (sig, got)
+
+
+@generator("PyFns_HttpDict")
+def gen_http_dict():
+    ok, got = _pinned_body(
+        "datastructures/range.py",
+        "ContentRange.__init__",
+        ("self, units: str | None, start: int | None, stop: int | None, length: int | None=None, on_update: cabc.Callable[[ContentRange], None] | None=None", ["self.on_update = on_update", "self.set(start, stop, length, units)"]),
+    )
+    extra = """open Wz.Gen.PyFns_Http
+
+/-- `urllib.parse.unquote(value, encoding=enc)` (errors="replace") for the four encoding names
+werkzeug lets through (C06's hand model `pctUnquote`); any other name is outside the model -/
+def unquoteEnc (value enc : Pre.Str) : Except String Pre.Str :=
+  if enc == "utf-8".toList then .ok (Wz.Http.pctUnquote .utf8 value)
+  else if enc == "iso-8859-1".toList then .ok (Wz.Http.pctUnquote .latin1 value)
+  else if enc == "ascii".toList || enc == "us-ascii".toList then .ok (Wz.Http.pctUnquote .ascii value)
+  else .error "py2lean: unquote() with an encoding outside the modelled ones"
+
+/-- `timedelta(seconds=n)` as its number of seconds: OverflowError outside `timedelta.min .. max`
+(`Gen.Http.timedeltaMaxSeconds` is regenerated from the live class) -/
+def timedeltaSeconds (n : Int) : Except String Int :=
+  if n > (Gen.Http.timedeltaMaxSeconds : Int) || n < -(86400 * 999999999 : Int) then .error "OverflowError" else .ok n
+
+"""
+    specs = [PARSE_AGE, DUMP_AGE, CONTENT_RANGE_SET, CONTENT_RANGE_UNSET, CONTENT_RANGE_TO_HEADER, CONTENT_RANGE_BOOL]
+    if ok:
+        extra_cr = """/-- `ContentRange(units, start, stop, length, on_update)`: `__init__` is (pinned by the generator)
+`self.on_update = on_update; self.set(start, stop, length, units)` - the object = its four
+attributes after `set` on a fresh instance -/
+def content_range_init (units : Option Pre.Str) (start stop length : Option Int) :
+    Except String (Option Pre.Str × Option Int × Option Int × Option Int) :=
+  let r := content_range_set none none none none false start stop length units
+  match r.2 with
+  | .error e => .error e
+  | .ok _ => .ok (r.1.1, r.1.2.1, r.1.2.2.1, r.1.2.2.2.1)
+
+"""
+    else:
+        extra_cr = f"/- UNTRANSLATABLE: ContentRange.__init__ is no longer `self.on_update = on_update; self.set(start, stop, length, units)`: {got} -/\n"
+        print("extract: PyFns_HttpDict: ContentRange.__init__ changed:", got)
+    return emit_parts("HttpDict", [extra, specs, extra_cr, [PARSE_CONTENT_RANGE_HEADER, PARSE_CSP_HEADER, DUMP_CSP_HEADER, PARSE_DICT_HEADER, PARSE_CACHE_CONTROL_HEADER]], imports=["WzVerif.Model.Http", "WzVerif.Gen.PyFns_Internal", "WzVerif.Gen.PyFns_Http"])
+
+
+# --------------------------------------------------------------------------
+# C06 / C02 / C07 / C17: parse_options_header (the scanner loop and the RFC 2231 pass)
+
+
+def _method_matcher(method, lits=(), recv_name=None):
+    """matcher for `X.method(<these literals>)` -> [X] (X a plain name; `recv_name` fixes it)"""
+    import ast
+
+    def m(n):
+        if not (isinstance(n, ast.Call) and isinstance(n.func, ast.Attribute) and n.func.attr == method and not n.keywords):
+            return None
+        if not isinstance(n.func.value, ast.Name) or (recv_name is not None and n.func.value.id != recv_name):
+            return None
+        if len(n.args) != len(lits) or not all(isinstance(a, ast.Constant) and a.value == v and type(a.value) is type(v) for a, v in zip(n.args, lits)):
+            return None
+        return [n.func.value]
+
+    return m
+
+
+_KEYM = Tup(STR, INT)
+PARSE_OPTIONS_HEADER = Spec(
+    module="http.py",
+    qualname="parse_options_header",
+    name="parse_options_header",
+    params=[("value", "Option Str")],
+    locals={"parts": "List (Str × Str)", "options": "Dict Str Str", "encoding": "Option Str", "continued_encoding": "Option Str"},
+    result="Str × Dict Str Str",
+    raises=True,
+    retype=["m"],
+    join_in_loops=True,
+    calls={
+        # the four compiled regexes through C06's hand models of them (their sources are pinned by
+        # Props/C06 `regex_sources_pinned`); a match object = what the code reads from it
+        "_parameter_key_re.match": Fn("parameterKeyReMatch", [STR], Opt(_KEYM)),  # (group(1), end())
+        "_parameter_token_value_re.match": Fn("parameterTokenValueReMatch", [STR], Opt(STR)),  # group()
+        "_charset_value_re.match": Fn("Wz.Http.charsetValue?", [STR], Opt(Tup(STR, STR))),  # groups()
+        # (start(), ()): a match object is always true, whatever its start()
+        "_continuation_re.search": Fn("continuationReSearch", [STR], Opt(Tup(INT, py2lean.OBJ))),
+    },
+    methods={("Tup", "groups"): Fn("id", [Tup(STR, STR)], Tup(STR, STR)), ("Tup", "start"): Fn("Prod.fst", [Tup(INT, py2lean.OBJ)], INT)},
+    patterns=[
+        (_method_matcher("group", (1,), "m"), Fn("Prod.fst", [_KEYM], STR)),
+        (_method_matcher("end", (), "m"), Fn("Prod.snd", [_KEYM], INT)),
+        (_method_matcher("group", (), "m"), Fn("id", [STR], STR)),
+        (_unquote_enc, _UNQUOTE),
+    ],
+)
+
+
+def _cls_call(n):
+    """`cls(X)` -> [X]"""
+    import ast
+
+    if isinstance(n, ast.Call) and isinstance(n.func, ast.Name) and n.func.id == "cls" and len(n.args) == 1 and not n.keywords:
+        return [n.args[0]]
+    return None
+
+
+py2lean.ABSTRACT_TYPES.add("κ")
+_ITEMS_K = py2lean.Lst(Tup(STR, py2lean.Abs("κ")))
+PARSE_ACCEPT_HEADER = Spec(
+    module="http.py",
+    qualname="parse_accept_header",
+    name="parse_accept_header",
+    type_params=["κ"],
+    # qualities are an abstract ordered type: `float(q_str)` and the literals 0 / 1 are parameters;
+    # `cls(result)` / `cls(None)`: the result is the argument handed to the Accept class
+    opaque=[("qle", "κ → κ → Bool"), ("qzero", "κ"), ("qone", "κ"), ("float_of", "Pre.Str → κ")],
+    orders={"κ": "qle"},
+    abs_lits={("κ", 0): "qzero", ("κ", 1): "qone"},
+    params=[("value", "Option Str"), ("cls", "Unit")],
+    locals={"result": "List (Str × κ)", "q": "κ"},
+    result="Option (List (Str × κ))",
+    raises=True,
+    needs_fuel=True,
+    static={"cls is None": False},
+    calls={
+        "parse_list_header": Fn("Gen.PyFns_Http.parse_list_header", [STR], py2lean.Lst(STR), raises=("IndexError",)),
+        "parse_options_header": Fn("parse_options_header", [Opt(STR)], Tup(STR, py2lean.Dct(STR, STR)), raises=("IndexError", "TypeError", "LookupError"), extra=("fuel",)),
+        # `_q_value_re.fullmatch(q_str)`: C06's hand model `qParts?` of `-?\d+(\.\d+)?` under re.ASCII
+        "_q_value_re.fullmatch": Fn("qValueReFullmatch", [STR], Opt(py2lean.OBJ)),
+        "float": Fn("float_of", [STR], py2lean.Abs("κ")),
+        "dump_options_header": Fn("Gen.PyFns_Http.dump_options_header", [Opt(STR), _DICT_OSTR], STR, raises=("IndexError",)),
+    },
+    patterns=[(_cls_call, Fn("id", [Opt(_ITEMS_K)], Opt(_ITEMS_K)))],
+    retype=["item"],
+)
+
+
+@generator("PyFns_HttpOptions")
+def gen_http_options():
+    extra = """open Wz.Gen.PyFns_Http Wz.Gen.PyFns_HttpDict
+
+/-- `_parameter_key_re.match(rest)` (`([\\w!#$%&'*+\\-.^`|~]+)=` under re.ASCII) through C06's character
+class `isKeyCh`: `(group(1), end())` -/
+def parameterKeyReMatch (rest : Pre.Str) : Option (Pre.Str × Int) :=
+  let key := rest.takeWhile Wz.Http.isKeyCh
+  match key.isEmpty, rest.dropWhile Wz.Http.isKeyCh with
+  | false, '=' :: _ => some (key, (key.length : Int) + 1)
+  | _, _ => none
+
+/-- `_parameter_token_value_re.match(rest)` through C06's character class `isTokValCh`: `group()` -/
+def parameterTokenValueReMatch (rest : Pre.Str) : Option Pre.Str :=
+  let tv := rest.takeWhile Wz.Http.isTokValCh
+  if tv.isEmpty then none else some tv
+
+/-- `_continuation_re.search(pk)` (`\\*(\\d+)$` under re.ASCII) through C06's `continuation?`: the match
+object as `(start(), ())` - a match object is always true -/
+def continuationReSearch (pk : Pre.Str) : Option (Int × Unit) :=
+  (Wz.Http.continuation? pk).map fun base => ((base.length : Int), ())
+
+"""
+    extra += """/-- `_q_value_re.fullmatch(s)` through C06's hand model `qParts?`: `some ()` = a match object -/
+def qValueReFullmatch (s : Pre.Str) : Option Unit := (Wz.Http.qParts? s).map fun _ => ()
+
+"""
+    return emit("HttpOptions", [PARSE_OPTIONS_HEADER, PARSE_ACCEPT_HEADER], imports=["WzVerif.Model.Http", "WzVerif.Gen.PyFns_Http", "WzVerif.Gen.PyFns_HttpDict"], extra=extra)
+
+
+# --------------------------------------------------------------------------
+# C05 / C11: response glue (sansio/response.py, wrappers/response.py)
+
+_RESP = "wrappers/response.py"
+CLEAN_STATUS_STR = Spec(
+    module="sansio/response.py",
+    qualname="Response._clean_status",
+    name="clean_status_str",
+    # the `str` branch of `value: str | int | HTTPStatus`
+    opaque=[("status_phrase", "Int → Option Pre.Str")],
+    params=[("value", "Str")],
+    result="Str × Int",
+    raises=True,
+    # `int(code_str)`: the C16 views model's `pyInt` answers `none` for ValueError
+    calls={"int": Fn("intOfStr", [STR], INT, raises=("ValueError",))},
+    patterns=[(_src_matcher("HTTP_STATUS_CODES[status_code].upper()"), Fn("statusPhraseUpper status_phrase status_code", [], STR, raises=("KeyError",)))],
+    doc="`Response._clean_status(value)` of src/werkzeug/sansio/response.py for a `str` value, translated by tools/py2lean.py",
+)
+CLEAN_STATUS_INT = Spec(
+    module="sansio/response.py",
+    qualname="Response._clean_status",
+    name="clean_status_int",
+    opaque=[("status_phrase", "Int → Option Pre.Str")],
+    params=[("value", "Int")],
+    result="Str × Int",
+    raises=True,
+    # isinstance(value, (int, HTTPStatus)) for an int; `int(value)` is the identity
+    static={"isinstance(value, (int, HTTPStatus))": True},
+    calls={"int": Fn("id", [INT], INT)},
+    patterns=[(_src_matcher("HTTP_STATUS_CODES[status_code].upper()"), Fn("statusPhraseUpper status_phrase status_code", [], STR, raises=("KeyError",)))],
+    doc="`Response._clean_status(value)` of src/werkzeug/sansio/response.py for an `int` value, translated by tools/py2lean.py",
+)
+CLEAN_STATUS_STR.static = {"isinstance(value, (int, HTTPStatus))": False}
+
+GET_APP_ITER = Spec(
+    module=_RESP,
+    qualname="Response.get_app_iter",
+    name="get_app_iter",
+    # which iterable is handed to the server: 0 = `ClosingIterator((), self.close)` (no body),
+    # 1 = `self.response` itself (direct passthrough), 2 = `ClosingIterator(self.iter_encoded(), self.close)`
+    opaque=[("request_method", "Pre.Str")],
+    params=[("self.status_code", "Int"), ("self.direct_passthrough", "Bool"), ("environ", "Unit")],
+    result="Int",
+    patterns=[
+        (_src_matcher("environ['REQUEST_METHOD']"), Fn("request_method", [], STR)),
+        (_src_matcher("()"), Fn("0", [], INT)),
+        (_src_matcher("self.response"), Fn("1", [], INT)),
+        (_src_matcher("self.iter_encoded()"), Fn("2", [], INT)),
+        (_src_matcher("ClosingIterator(iterable, self.close)"), Fn("iterable", [], INT)),
+    ],
+)
+
+IS_RANGE_REQUEST_PROCESSABLE = Spec(
+    module=_RESP,
+    qualname="Response._is_range_request_processable",
+    name="is_range_request_processable",
+    # `modified` = is_resource_modified(environ, etag header, None, last-modified header, ignore_if_range=False)
+    opaque=[("has_if_range", "Bool"), ("has_range", "Bool"), ("modified", "Bool")],
+    params=[("environ", "Unit")],
+    result="Bool",
+    patterns=[
+        (_src_matcher("'HTTP_IF_RANGE' not in environ"), Fn("(!has_if_range)", [], BOOL)),
+        (_src_matcher("'HTTP_RANGE' in environ"), Fn("has_range", [], BOOL)),
+        (_src_matcher("is_resource_modified(environ, self.headers.get('etag'), None, self.headers.get('last-modified'), ignore_if_range=False)"), Fn("modified", [], BOOL)),
+    ],
+)
+
+RANGE_REC = py2lean.record("Range", [("units", "Str"), ("ranges", RANGES_TY)])
+RANGE_TO_CONTENT_RANGE_HEADER = Spec(
+    module="datastructures/range.py",
+    qualname="Range.to_content_range_header",
+    name="range_to_content_range_header",
+    # `length: int | None` restricted to int (what `_process_range_request` passes)
+    params=[("self.units", "Str"), ("self.ranges", RANGES_TY), ("length", "Int")],
+    result="Option Str",
+    raises=True,
+    calls={"self.range_for_length": Fn("Gen.PyFns_Range.range_for_length", [Opt(INT)], Opt(Tup(INT, INT)), raises=("IndexError",), extra=("self_units", "self_ranges"))},
+)
+
+_PRR_RES = "Bool × Option Int × Option Str × Option Str × Option Int × Option (Int × Int)"
+_PRR_PATTERNS = [
+    (_src_matcher("self._is_range_request_processable(environ)"), Fn("processable", [], BOOL)),
+    (_src_matcher("environ.get('HTTP_RANGE')"), Fn("http_range", [], Opt(STR))),
+]
+_PRR_EFFECTS = {
+    "self.headers['Content-Length'] = str(content_length)": [("self.out_content_length", "content_length")],
+    "self.headers['Accept-Ranges'] = accept_ranges": [("self.out_accept_ranges", "accept_ranges")],
+    "self.content_range = content_range_header": [("self.out_content_range", "content_range_header")],
+    "self.status_code = 206": [("self.out_status", "206")],
+    "self._wrap_range_response(range_tuple[0], content_length)": [("self.out_wrap", "(range_tuple[0], content_length)")],
+}
+_PRR_STATE = ["out_content_length", "out_accept_ranges", "out_content_range", "out_status", "out_wrap"]
+_PRR_PARAMS = [("self.out_content_length", "Option Int"), ("self.out_accept_ranges", "Option Str"), ("self.out_content_range", "Option Str"), ("self.out_status", "Option Int"), ("self.out_wrap", "Option (Int × Int)")]
+_PRR_CALLS = {
+    "parse_range_header": Fn("Gen.PyFns_Range.parse_range_header", [Opt(STR), BOOL], Opt(RANGE_REC), raises=("ValueError",), defaults_from=("http.py", "parse_range_header")),
+}
+_PRR_METHODS = {
+    ("Rec:Range", "range_for_length"): Fn("Gen.PyFns_Range.range_for_length", [Opt(INT)], Opt(Tup(INT, INT)), raises=("IndexError",), recv_fields=("units", "ranges")),
+    ("Rec:Range", "to_content_range_header"): Fn("range_to_content_range_header", [INT], Opt(STR), raises=("IndexError",), recv_fields=("units", "ranges")),
+}
+PROCESS_RANGE_REQUEST_BOOL = Spec(
+    module=_RESP,
+    qualname="Response._process_range_request",
+    name="process_range_request_bool",
+    # `accept_ranges: bool | str` as a bool; what the method writes to the response (headers,
+    # status, body wrapper) is recorded in the `out_*` attributes
+    opaque=[("processable", "Bool"), ("http_range", "Option Pre.Str")],
+    params=_PRR_PARAMS + [("environ", "Unit"), ("complete_length", "Option Int"), ("accept_ranges", "Bool")],
+    state=_PRR_STATE,
+    result="Bool",
+    raises=True,
+    calls=_PRR_CALLS,
+    methods=_PRR_METHODS,
+    patterns=_PRR_PATTERNS,
+    effects=_PRR_EFFECTS,
+    retype=["accept_ranges"],
+    doc="`Response._process_range_request` of src/werkzeug/wrappers/response.py for `accept_ranges: bool`, translated by tools/py2lean.py",
+)
+
+
+PROCESS_RANGE_REQUEST_STR = Spec(
+    module=_RESP,
+    qualname="Response._process_range_request",
+    name="process_range_request_str",
+    opaque=[("processable", "Bool"), ("http_range", "Option Pre.Str")],
+    params=_PRR_PARAMS + [("environ", "Unit"), ("complete_length", "Option Int"), ("accept_ranges", "Str")],
+    state=_PRR_STATE,
+    result="Bool",
+    raises=True,
+    calls=_PRR_CALLS,
+    methods=_PRR_METHODS,
+    patterns=_PRR_PATTERNS,
+    effects=_PRR_EFFECTS,
+    doc="`Response._process_range_request` of src/werkzeug/wrappers/response.py for `accept_ranges: str`, translated by tools/py2lean.py",
+)
+
+
+@generator("PyFns_Response")
+def gen_response():
+    extra = """/-- `int(text)` through C06's hand model `pyInt` -/
+def intOfStr (s : Pre.Str) : Except String Int := Wz.Http.pyInt s
+
+/-- `HTTP_STATUS_CODES[code].upper()` for a table given as a lookup function: KeyError when absent -/
+def statusPhraseUpper (phrase : Int → Option Pre.Str) (code : Int) : Except String Pre.Str :=
+  match phrase code with
+  | some p => .ok (Pre.upper p)
+  | none => .error "KeyError"
+
+"""
+    return emit("Response", [CLEAN_STATUS_STR, CLEAN_STATUS_INT, GET_APP_ITER, IS_RANGE_REQUEST_PROCESSABLE, RANGE_TO_CONTENT_RANGE_HEADER, PROCESS_RANGE_REQUEST_BOOL, PROCESS_RANGE_REQUEST_STR], imports=["WzVerif.Model.Http", "WzVerif.Gen.PyFns_Range"], extra=extra)
+
+
+# --------------------------------------------------------------------------
+# C13: cookies
+
+
+def _find_stmt_text(module, qualname, startswith):
+    """`ast.unparse` text of the (single) statement of the function whose text starts with `startswith`"""
+    import ast
+
+    tr = py2lean.Translator(Spec(module=module, qualname=qualname, name="_", params=[], result="Unit"), REPO)
+    fn, _ = tr.find_def()
+    hits = [ast.unparse(x) for x in ast.walk(fn) if isinstance(x, ast.stmt) and not isinstance(x, (ast.FunctionDef, ast.If, ast.For, ast.While, ast.Try)) and ast.unparse(x).startswith(startswith)]
+    return hits[0] if len(hits) == 1 else None
+
+
+def _cookie_escape(n):
+    """`_cookie_slash_re.sub(lambda m: _cookie_slash_map[m.group()], X.encode()).decode("ascii")` -> [X]"""
+    import ast
+
+    try:
+        src = ast.unparse(n)
+    except Exception:  # noqa: BLE001
+        return None
+    pre, post = "_cookie_slash_re.sub(lambda m: _cookie_slash_map[m.group()], ", ".encode()).decode('ascii')"
+    if isinstance(n, ast.Call) and src.startswith(pre) and src.endswith(post):
+        inner = n.func.value.args[1].func.value
+        return [inner]
+    return None
+
+
+def dump_cookie_spec():
+    warn = _find_stmt_text("http.py", "dump_cookie", "warnings.warn(")
+    return Spec(
+        module="http.py",
+        qualname="dump_cookie",
+        name="dump_cookie",
+        # `expires` restricted to `str | None`, `max_age` to `int | None`; the IDNA codec and
+        # `http_date(now + max_age)` are parameters; the size warning has no effect in the model
+        opaque=[("idna", "Pre.Str → Except String Pre.Str"), ("expires_in", "Int → Pre.Str")],
+        params=[
+            ("key", "Str"), ("value", "Str"), ("max_age", "Option Int"), ("expires", "Option Str"), ("path", "Option Str"), ("domain", "Option Str"),
+            ("secure", "Bool"), ("httponly", "Bool"), ("sync_expires", "Bool"), ("max_size", "Int"), ("samesite", "Option Str"), ("partitioned", "Bool"),
+        ],
+        result="Str",
+        raises=True,
+        retype=["*"],
+        static={"isinstance(max_age, timedelta)": False, "isinstance(expires, str)": True},
+        calls={"_cookie_no_quote_re.fullmatch": Fn("cookieNoQuoteFullmatch", [STR], Opt(py2lean.OBJ))},
+        patterns=[
+            (_quote_safe, _QUOTE_STR),
+            (chain_matcher(("encode", ("idna",)), ("decode", ("ascii",))), IDNA),
+            (_src_matcher("http_date(datetime.now(tz=timezone.utc).timestamp() + max_age)"), Fn("expires_in max_age", [], STR)),
+            (_cookie_escape, Fn("cookieEscapeValue", [STR], STR, raises=("KeyError", "UnicodeDecodeError"))),
+            (chain_matcher(("encode", ()), ("decode", ("latin1",))), Fn("Pre.utf8ThenLatin1", [STR], STR)),
+        ],
+        effects={warn: []} if warn else {},
+    )
+
+
+def _decode_errors_replace(n):
+    """`X.decode(errors="replace")` -> [X]"""
+    import ast
+
+    if isinstance(n, ast.Call) and isinstance(n.func, ast.Attribute) and n.func.attr == "decode" and not n.args and len(n.keywords) == 1:
+        kw = n.keywords[0]
+        if kw.arg == "errors" and isinstance(kw.value, ast.Constant) and kw.value.value == "replace":
+            return [n.func.value]
+    return None
+
+
+def _cookie_unslash(n):
+    """`_cookie_unslash_re.sub(_cookie_unslash_replace, X.encode()).decode(errors="replace")` -> [X]"""
+    import ast
+
+    try:
+        src = ast.unparse(n)
+    except Exception:  # noqa: BLE001
+        return None
+    pre, post = "_cookie_unslash_re.sub(_cookie_unslash_replace, ", ".encode()).decode(errors='replace')"
+    if isinstance(n, ast.Call) and src.startswith(pre) and src.endswith(post):
+        return [n.func.value.args[1].func.value]
+    return None
+
+
+def _cls_call0(n):
+    """`cls()` -> []"""
+    import ast
+
+    if isinstance(n, ast.Call) and isinstance(n.func, ast.Name) and n.func.id == "cls" and not n.args and not n.keywords:
+        return []
+    return None
+
+
+def _sansio_parse_cookie_call(n):
+    """`_sansio_http.parse_cookie(cookie=X, cls=cls)` -> [X, cls]"""
+    import ast
+
+    if isinstance(n, ast.Call) and py2lean.dotted(n.func) == "_sansio_http.parse_cookie" and not n.args and [k.arg for k in n.keywords] == ["cookie", "cls"]:
+        return [n.keywords[0].value, n.keywords[1].value]
+    return None
+
+
+_PAIRS = py2lean.Lst(Tup(STR, STR))
+SANSIO_PARSE_COOKIE = Spec(
+    module="sansio/http.py",
+    qualname="parse_cookie",
+    name="sansio_parse_cookie",
+    # `cls(out)` / `cls()`: the result is the pair list handed to the MultiDict class
+    params=[("cookie", "Option Str"), ("cls", "Unit")],
+    locals={"out": "List (Str × Str)"},
+    result="List (Str × Str)",
+    raises=True,  # cv[0] / cv[-1] raise IndexError on "": proved impossible (len guard)
+    static={"cls is None": False},
+    # `_cookie_re.findall(cookie)`: C13's hand model `findAll` of the verbose regex (shape pinned by
+    # Props/C13 `regex_shapes`), with the fuel the model function uses
+    calls={"_cookie_re.findall": Fn("cookieReFindall", [STR], _PAIRS)},
+    patterns=[
+        (_cookie_unslash, Fn("cookieUnslashValue", [STR], STR)),
+        (_cls_call, Fn("id", [_PAIRS], _PAIRS)),
+        (_cls_call0, Fn("([] : List (Pre.Str × Pre.Str))", [], _PAIRS)),
+    ],
+)
+HTTP_PARSE_COOKIE = Spec(
+    module="http.py",
+    qualname="parse_cookie",
+    name="http_parse_cookie",
+    # the `str | None` form of `header` (the environ form only looks up HTTP_COOKIE first)
+    params=[("header", "Option Str"), ("cls", "Unit")],
+    result="List (Str × Str)",
+    raises=True,  # UnicodeEncodeError for a character above U+00FF (cannot come from a WSGI environ)
+    static={"isinstance(header, dict)": False},
+    patterns=[
+        (_sansio_parse_cookie_call, Fn("sansio_parse_cookie", [Opt(STR), py2lean.NONE], _PAIRS, raises=("IndexError",))),
+        (chain_matcher(("encode", ("latin1",))), Fn("Pre.encodeLatin1", [STR], py2lean.BYTES, raises=("UnicodeEncodeError",))),
+        (_decode_errors_replace, Fn("Pre.decodeUtf8Replace", [py2lean.BYTES], STR)),
+    ],
+)
+
+
+@generator("PyFns_Cookie")
+def gen_cookie():
+    extra = regex_const("werkzeug.http", "_cookie_no_quote_re", "cookieNoQuoteRe")
+    extra += """/-- `_cookie_no_quote_re.fullmatch(value)` (a single starred character class): the class evaluated
+on every code point is `Cookie.noQuoteChar` (Gen/Cookie.lean, regenerated from the live pattern) -/
+def cookieNoQuoteFullmatch (v : Pre.Str) : Option Unit := if v.all Wz.Cookie.noQuoteChar then some () else none
+
+/-- `_cookie_slash_re.sub(lambda m: _cookie_slash_map[m.group()], value.encode()).decode("ascii")`
+through the model's `escapeBytes` / `asciiDec` over the regenerated slash set and map -/
+def cookieEscapeValue (v : Pre.Str) : Except String Pre.Str :=
+  match Wz.Cookie.escapeBytes (utf8Enc v) with
+  | none => .error "KeyError"
+  | some e =>
+    match Wz.Cookie.asciiDec e with
+    | none => .error "UnicodeDecodeError"
+    | some s => .ok s
+
+"""
+    extra += """/-- `_cookie_re.findall(cookie)` through the model's `findAll` (fuel = length + 1, as the model's own
+`parseCookie` uses it) -/
+def cookieReFindall (cookie : Pre.Str) : List (Pre.Str × Pre.Str) := Wz.Cookie.findAll (cookie.length + 1) cookie
+
+/-- `_cookie_unslash_re.sub(_cookie_unslash_replace, inner.encode()).decode(errors="replace")` through
+the model's `unslash` (octal / backslash escapes over the regenerated byte classes) -/
+def cookieUnslashValue (inner : Pre.Str) : Pre.Str := Py.decodeReplace (Wz.Cookie.unslash (utf8Enc inner))
+
+"""
+    return emit("Cookie", [dump_cookie_spec(), SANSIO_PARSE_COOKIE, HTTP_PARSE_COOKIE], imports=["WzVerif.Model.Cookie", "WzVerif.Model.Url"], extra=extra)
+
+
+# --------------------------------------------------------------------------
+# C15: URLs
+
+
+def _quote_safe(n):
+    """`quote(X, safe=<str literal>)` -> [<literal>, X]"""
+    import ast
+
+    if isinstance(n, ast.Call) and isinstance(n.func, ast.Name) and n.func.id == "quote" and len(n.args) == 1 and len(n.keywords) == 1:
+        kw = n.keywords[0]
+        if kw.arg == "safe" and isinstance(kw.value, ast.Constant) and isinstance(kw.value.value, str):
+            return [kw.value, n.args[0]]
+    return None
+
+
+#: `urllib.parse.quote(text, safe=lit)`: C15's hand model (UTF-8 bytes, `_ALWAYS_SAFE` regenerated)
+_QUOTE_STR = Fn("Wz.Url.quote", [STR, STR], STR)
+_QUOTE_ANY = Fn("Wz.Url.quote", [STR, None], STR, result_of=lambda ts: STR if ts[1] == STR else None)
+
+
+def _quote_safe_bytes(n):
+    """`quote(<bytes expr>, safe=<literal>)` is tried first for the query string"""
+    import ast
+
+    r = _quote_safe(n)
+    if r is not None and isinstance(r[1], ast.Name) and r[1].id == "query_string":
+        return r
+    return None
+
+
+GET_CURRENT_URL = Spec(
+    module="sansio/utils.py",
+    qualname="get_current_url",
+    name="get_current_url",
+    # `uri_to_iri` stays a parameter (text -> text, may raise)
+    opaque=[("uri_to_iri", "Pre.Str → Except String Pre.Str")],
+    params=[("scheme", "Str"), ("host", "Str"), ("root_path", "Option Str"), ("path", "Option Str"), ("query_string", "Option Bytes")],
+    result="Str",
+    raises=True,
+    calls={"uri_to_iri": Fn("uri_to_iri", [STR], STR, raises=("ValueError", "UnicodeError"))},
+    patterns=[
+        (_quote_safe_bytes, Fn("Wz.Url.quoteBytes", [STR, py2lean.BYTES], STR)),
+        (_quote_safe, _QUOTE_STR),
+    ],
+)
+
+WSGI_DECODING_DANCE = Spec(
+    module="_internal.py",
+    qualname="_wsgi_decoding_dance",
+    name="wsgi_decoding_dance",
+    params=[("s", "Str")],
+    result="Str",
+    raises=True,  # UnicodeEncodeError for a character above U+00FF
+    patterns=[
+        (chain_matcher(("encode", ("latin1",))), Fn("Pre.encodeLatin1", [STR], py2lean.BYTES, raises=("UnicodeEncodeError",))),
+    ],
+    methods={("Bytes", "decode"): Fn("Pre.decodeUtf8Replace", [py2lean.BYTES], STR)},
+)
+
+
+def _decode_replace(n):
+    """`X.decode(errors="replace")` -> [X]"""
+    import ast
+
+    if isinstance(n, ast.Call) and isinstance(n.func, ast.Attribute) and n.func.attr == "decode" and not n.args and len(n.keywords) == 1:
+        kw = n.keywords[0]
+        if kw.arg == "errors" and isinstance(kw.value, ast.Constant) and kw.value.value == "replace":
+            return [n.func.value]
+    return None
+
+
+WSGI_DECODING_DANCE.patterns.insert(0, (_decode_replace, Fn("Pre.decodeUtf8Replace", [py2lean.BYTES], STR)))
+WSGI_ENCODING_DANCE = Spec(
+    module="_internal.py",
+    qualname="_wsgi_encoding_dance",
+    name="wsgi_encoding_dance",
+    params=[("s", "Str")],
+    result="Str",
+    patterns=[(chain_matcher(("encode", ()), ("decode", ("latin1",))), Fn("Pre.utf8ThenLatin1", [STR], STR))],
+)
+
+# urlsplit's result as a parameter: the attributes the functions read
+SPLIT_RESULT = py2lean.record(
+    "SplitResult",
+    [("scheme", "Str"), ("hostname", "Option Str"), ("port", "Option Int"), ("username", "Option Str"), ("password", "Option Str"), ("path", "Str"), ("query", "Str"), ("fragment", "Str")],
+)
+_SPLIT5 = Tup(STR, STR, STR, STR, STR)
+_URL_COMMON = dict(
+    module="urls.py",
+    result="Str × Str × Str × Str × Str",
+    raises=True,
+)
+
+
+def _urlunsplit5(n):
+    """`urlunsplit((a, b, c, d, e))` -> [(a, b, c, d, e)]: the 5-tuple itself is the result"""
+    import ast
+
+    if isinstance(n, ast.Call) and isinstance(n.func, ast.Name) and n.func.id == "urlunsplit" and len(n.args) == 1 and not n.keywords:
+        if isinstance(n.args[0], ast.Tuple) and len(n.args[0].elts) == 5:
+            return [n.args[0]]
+    return None
+
+
+IRI_TO_URI = Spec(
+    qualname="iri_to_uri",
+    name="iri_to_uri",
+    # `urlsplit(iri)` and the IDNA codec stay parameters; the result is the 5-tuple handed to urlunsplit
+    opaque=[("urlsplit", "Pre.Str → Pre.Str × Option Pre.Str × Option Int × Option Pre.Str × Option Pre.Str × Pre.Str × Pre.Str × Pre.Str"), ("idna", "Pre.Str → Except String Pre.Str")],
+    params=[("iri", "Str")],
+    calls={"urlsplit": Fn("urlsplit", [STR], SPLIT_RESULT)},
+    patterns=[
+        (_quote_safe, _QUOTE_STR),
+        (chain_matcher(("encode", ("idna",)), ("decode", ("ascii",))), IDNA),
+        (_urlunsplit5, Fn("id", [_SPLIT5], _SPLIT5)),
+    ],
+    **_URL_COMMON,
+)
+_KEEP = lambda name: Fn(f"Wz.Url.unquotePartial Gen.UrlTables.{name}", [STR], STR)  # noqa: E731
+URI_TO_IRI = Spec(
+    qualname="uri_to_iri",
+    name="uri_to_iri",
+    opaque=[("urlsplit", "Pre.Str → Pre.Str × Option Pre.Str × Option Int × Option Pre.Str × Option Pre.Str × Pre.Str × Pre.Str × Pre.Str"), ("decode_idna", "Pre.Str → Pre.Str")],
+    params=[("uri", "Str")],
+    # `_unquote_<part>` = `_make_unquote_part(name, chars)`: C15's hand model `unquotePartial` with the
+    # keep-quoted set evaluated from the live compiled pattern (Gen/UrlTables.lean)
+    calls={
+        "urlsplit": Fn("urlsplit", [STR], SPLIT_RESULT),
+        "_decode_idna": Fn("decode_idna", [STR], STR),
+        "_unquote_path": _KEEP("keepPath"),
+        "_unquote_query": _KEEP("keepQuery"),
+        "_unquote_fragment": _KEEP("keepFragment"),
+        "_unquote_user": _KEEP("keepUser"),
+    },
+    patterns=[(_urlunsplit5, Fn("id", [_SPLIT5], _SPLIT5))],
+    **_URL_COMMON,
+)
+
+
+# DispatcherMiddleware.__call__ (middleware/dispatcher.py): apps are an abstract type
+DISPATCHER_CALL = Spec(
+    module="middleware/dispatcher.py",
+    qualname="DispatcherMiddleware.__call__",
+    name="dispatcher_call",
+    type_params=["α"],
+    # what is read from / written to the environ: `path_info_in` = environ.get("PATH_INFO", ""),
+    # `script_name_in` = environ.get("SCRIPT_NAME", ""); the two stores are recorded in `out_*`
+    opaque=[("path_info_in", "Pre.Str"), ("script_name_in", "Pre.Str")],
+    params=[("self.mounts", "Dict Str α"), ("self.app", "α"), ("self.out_script_name", "Str"), ("self.out_path_info", "Str"), ("environ", "Unit"), ("start_response", "Unit")],
+    state=["out_script_name", "out_path_info"],
+    result="α",
+    raises=True,  # fuel; `self.mounts[script]` (guarded by `in`) and the rsplit unpacking (guarded by `"/" in`): proved impossible
+    patterns=[
+        (_src_matcher("environ.get('PATH_INFO', '')"), Fn("path_info_in", [], STR)),
+        (_src_matcher("environ.get('SCRIPT_NAME', '')"), Fn("script_name_in", [], STR)),
+        (_src_matcher("app(environ, start_response)"), Fn("app", [], py2lean.Abs("α"))),
+    ],
+    effects={
+        "environ['SCRIPT_NAME'] = original_script_name + script": [("self.out_script_name", "original_script_name + script")],
+        "environ['PATH_INFO'] = path_info": [("self.out_path_info", "path_info")],
+    },
+)
+py2lean.ABSTRACT_TYPES.add("α")
+
+
+@generator("PyFns_Url")
+def gen_url():
+    return emit("Url", [GET_CURRENT_URL, WSGI_DECODING_DANCE, WSGI_ENCODING_DANCE, IRI_TO_URI, URI_TO_IRI, DISPATCHER_CALL], imports=["WzVerif.Model.Url"])
 
 
 # --------------------------------------------------------------------------
@@ -414,9 +1798,67 @@ NUMBER_TO_URL = Spec(
 )
 
 
+_CONV = "routing/converters.py"
+_RQUOTE = Fn("quoteL", [STR, STR], STR)
+BASE_TO_PYTHON = Spec(module=_CONV, qualname="BaseConverter.to_python", name="base_to_python", params=[("value", "Str")], result="Str")
+BASE_TO_URL = Spec(
+    module=_CONV, qualname="BaseConverter.to_url", name="base_to_url",
+    # `value: t.Any` restricted to str: `str(value)` is the identity
+    params=[("value", "Str")], result="Str",
+    patterns=[(_quote_safe, _RQUOTE)],
+)
+UNICODE_INIT = Spec(
+    module=_CONV, qualname="UnicodeConverter.__init__", name="unicode_init",
+    params=[("map", "Unit"), ("minlength", "Int"), ("maxlength", "Option Int"), ("length", "Option Int")],
+    fields=["regex"], result="Str",
+    # `super().__init__(map)` only stores the map
+    effects={"super().__init__(map)": []},
+    calls={"int": Fn("id", [INT], INT)},
+)
+
+
+def _set_call(n):
+    """`set(X)` -> [X]"""
+    import ast
+
+    if isinstance(n, ast.Call) and isinstance(n.func, ast.Name) and n.func.id == "set" and len(n.args) == 1 and not n.keywords:
+        return [n.args[0]]
+    return None
+
+
+ANY_INIT = Spec(
+    module=_CONV, qualname="AnyConverter.__init__", name="any_init",
+    params=[("map", "Unit"), ("*items", "List Str")],
+    fields=["items", "regex"], result="Set Str × Str",
+    effects={"super().__init__(map)": []},
+    # `re.escape`: the model's `reEscape` over the regenerated set of special characters
+    calls={"re.escape": Fn("Wz.Routing.reEscape", [STR], STR)},
+    patterns=[(_set_call, Fn("Pre.frozenset", [py2lean.Lst(STR)], py2lean.Ty("Set", (STR,))))],
+)
+ANY_TO_URL = Spec(
+    module=_CONV, qualname="AnyConverter.to_url", name="any_to_url",
+    params=[("self.items", "Set Str"), ("value", "Str")], result="Str", raises=True,
+    calls={"sorted": Fn("Pre.sortedStr", [py2lean.Ty("Set", (STR,))], py2lean.Lst(STR))},
+    patterns=[(_src_matcher("super().to_url(value)"), Fn("base_to_url value", [], STR))],
+)
+NUMBER_SIGNED_REGEX = Spec(module=_CONV, qualname="NumberConverter.signed_regex", name="number_signed_regex", params=[("self.regex", "Str")], result="Str", decorators=["property"])
+NUMBER_INIT = Spec(
+    module=_CONV, qualname="NumberConverter.__init__", name="number_init",
+    # `self.regex` before the call = the class attribute (`\\d+` / `\\d+\\.\\d+`)
+    params=[("self.regex", "Str"), ("map", "Unit"), ("fixed_digits", "Int"), ("min", "Option Int"), ("max", "Option Int"), ("signed", "Bool")],
+    fields=["regex", "fixed_digits", "min", "max", "signed"], result="Str × Int × Option Int × Option Int × Bool",
+    effects={"super().__init__(map)": []},
+    patterns=[(_src_matcher("self.signed_regex"), Fn("number_signed_regex self_regex", [], STR))],
+)
+
+
 @generator("PyFns_Routing")
 def gen_routing():
-    return emit("Routing", [NUMBER_TO_PYTHON, NUMBER_TO_URL])
+    extra = """/-- `urllib.parse.quote(s, safe=lit)` through the routing model's `quote` (the literal as text) -/
+def quoteL (safe s : Pre.Str) : Pre.Str := Wz.Routing.quote (String.ofList safe) s
+
+"""
+    return emit("Routing", [NUMBER_TO_PYTHON, NUMBER_TO_URL, BASE_TO_PYTHON, BASE_TO_URL, UNICODE_INIT, ANY_INIT, ANY_TO_URL, NUMBER_SIGNED_REGEX, NUMBER_INIT], imports=["WzVerif.Model.RoutingUrl"], extra=extra)
 
 
 # --------------------------------------------------------------------------
@@ -530,10 +1972,93 @@ LANG_BEST_MATCH = Spec(
 )
 
 
+# --- the class-specific parts and the small accessors (round 3)
+_ACCM = "datastructures/accept.py"
+ACC_SPECIFICITY = Spec(module=_ACCM, qualname="Accept._specificity", name="accept_specificity", params=[("value", "Str")], result="List Bool")
+ACC_VALUE_MATCHES = Spec(module=_ACCM, qualname="Accept._value_matches", name="accept_value_matches", params=[("value", "Str"), ("item", "Str")], result="Bool")
+NORMALIZE_MIME = Spec(
+    module=_ACCM, qualname="_normalize_mime", name="normalize_mime", params=[("value", "Str")], result="List Str",
+    # `_mime_split_re.split`: the model's `mimeSplit` (pattern source pinned by `mimeSplitRe`)
+    calls={"_mime_split_re.split": Fn("Wz.Accept.mimeSplit", [STR], Lst(STR))},
+)
+MIME_SPECIFICITY = Spec(
+    module=_ACCM, qualname="MIMEAccept._specificity", name="mime_specificity", params=[("value", "Str")], result="List Bool",
+    calls={"_mime_split_re.split": Fn("Wz.Accept.mimeSplit", [STR], Lst(STR))},
+)
+MIME_VALUE_MATCHES = Spec(
+    module=_ACCM, qualname="MIMEAccept._value_matches", name="mime_value_matches", params=[("value", "Str"), ("item", "Str")], result="Bool",
+    raises=True,  # the documented ValueError for an invalid offer; the two-way unpackings are proved safe
+    calls={"_normalize_mime": Fn("normalize_mime", [STR], Lst(STR)), "sorted": Fn("Pre.sortedStr", [Lst(STR)], Lst(STR))},
+)
+NORMALIZE_LANG = Spec(
+    module=_ACCM, qualname="_normalize_lang", name="normalize_lang", params=[("value", "Str")], result="List Str",
+    calls={"_locale_delim_re.split": Fn("splitLangRe", [STR], Lst(STR))},
+)
+LANG_VALUE_MATCHES = Spec(
+    module=_ACCM, qualname="LanguageAccept._value_matches", name="lang_value_matches", params=[("value", "Str"), ("item", "Str")], result="Bool",
+    calls={"_normalize_lang": Fn("normalize_lang", [STR], Lst(STR))},
+)
+
+
+def _codecs_lookup_name(n):
+    """`codecs.lookup(X).name` -> [X]"""
+    import ast
+
+    if isinstance(n, ast.Attribute) and n.attr == "name" and isinstance(n.value, ast.Call) and py2lean.dotted(n.value.func) == "codecs.lookup" and len(n.value.args) == 1 and not n.value.keywords:
+        return [n.value.args[0]]
+    return None
+
+
+CHARSET_VALUE_MATCHES = Spec(
+    module=_ACCM, qualname="CharsetAccept._value_matches", name="charset_value_matches",
+    # the codec registry is a parameter: name -> canonical name, None = LookupError
+    opaque=[("codec_name", "Pre.Str → Option Pre.Str")],
+    params=[("value", "Str"), ("item", "Str")], result="Bool",
+    nested={"_normalize": ([("name", "Str")], "Str")},
+    patterns=[(_codecs_lookup_name, Fn("codecLookupName codec_name", [STR], STR, raises=("LookupError",)))],
+)
+ACC_VALUES = Spec(qualname="Accept.values", name="values", opaque=[], params=[_SELF], result="List Str", type_params=["κ"], module=_ACCM)
+ACC_BEST = Spec(qualname="Accept.best", name="best", params=[_SELF], result="Option Str", raises=True, type_params=["κ"], module=_ACCM, decorators=["property"])
+ACC_TO_HEADER = Spec(
+    qualname="Accept.to_header", name="to_header",
+    # `f"{value};q={quality}"` prints the float: `qstr`; `quality != 1` through the order
+    opaque=[_N, ("qone", "κ"), ("qstr", "κ → Pre.Str")],
+    params=[_SELF], result="Str", locals={"result": "List Str"},
+    abs_lits={("κ", 1): "qone"}, abs_str={"κ": "qstr"}, **_ACC,
+)
+ACC_GETITEM_STR = Spec(
+    qualname="Accept.__getitem__", name="getitem_str", opaque=[_N], params=[_SELF, ("key", "Str")], result="κ",
+    calls={"self.quality": Fn("quality", [STR], _K, extra=("N", "self"))}, **_ACC,
+)
+_MIME_IN = {"self": Fn("contains N self", [STR], BOOL)}
+MIME_ACCEPT_XHTML = Spec(qualname="MIMEAccept.accept_xhtml", name="accept_xhtml", opaque=[_N], params=[_SELF], result="Bool", in_ops=_MIME_IN, decorators=["property"], **_ACC)
+MIME_ACCEPT_HTML = Spec(
+    qualname="MIMEAccept.accept_html", name="accept_html", opaque=[_N], params=[_SELF], result="Bool", in_ops=_MIME_IN, decorators=["property"],
+    patterns=[(_src_matcher("self.accept_xhtml"), Fn("accept_xhtml N self", [], BOOL))], **_ACC,
+)
+MIME_ACCEPT_JSON = Spec(qualname="MIMEAccept.accept_json", name="accept_json", opaque=[_N], params=[_SELF], result="Bool", in_ops=_MIME_IN, decorators=["property"], **_ACC)
+
+
 @generator("PyFns_Accept")
 def gen_accept():
     extra = regex_const("werkzeug.datastructures.accept", "_locale_delim_re", "localeDelimRe")
-    return emit("Accept", [ACC_BEST_SINGLE, ACC_QUALITY, ACC_CONTAINS, ACC_INDEX, ACC_FIND, ACC_BEST_MATCH, LANG_BEST_MATCH], imports=["WzVerif.Model.Accept"], extra=extra)
+    extra += regex_const("werkzeug.datastructures.accept", "_mime_split_re", "mimeSplitRe")
+    extra += """/-- `_locale_delim_re.split(s)` (`[_-]`): the model's `splitLang` -/
+def splitLangRe (s : Pre.Str) : List Pre.Str := Wz.Accept.splitLang s []
+
+/-- `codecs.lookup(name).name` for a codec registry given as a lookup function: LookupError when unknown -/
+def codecLookupName (reg : Pre.Str → Option Pre.Str) (name : Pre.Str) : Except String Pre.Str :=
+  match reg name with
+  | some n => .ok n
+  | none => .error "LookupError"
+
+"""
+    return emit(
+        "Accept",
+        [ACC_BEST_SINGLE, ACC_QUALITY, ACC_CONTAINS, ACC_INDEX, ACC_FIND, ACC_BEST_MATCH, LANG_BEST_MATCH,
+         ACC_SPECIFICITY, ACC_VALUE_MATCHES, NORMALIZE_MIME, MIME_SPECIFICITY, MIME_VALUE_MATCHES, NORMALIZE_LANG, LANG_VALUE_MATCHES,
+         CHARSET_VALUE_MATCHES, ACC_VALUES, ACC_BEST, ACC_TO_HEADER, ACC_GETITEM_STR, MIME_ACCEPT_XHTML, MIME_ACCEPT_HTML, MIME_ACCEPT_JSON],
+        imports=["WzVerif.Model.Accept"], extra=extra)
 
 
 # --------------------------------------------------------------------------
